@@ -1061,7 +1061,7 @@ impl Monitor for M {
                 "all definitions with prefix in {empty,a,ab}, 3 parameters each delimited by one of {none, ., ab, aab, \\x}, optional #{, 2 replacement texts, called with every triple of the 8/6 core argument shapes",
             )),
         }
-        v.push(Phase::new("random", tier.pick(15_000, 1_000_000)).batch(64));
+        v.push(Phase::new("random", tier.pick(15_000, 1_500_000)).batch(64));
         v
     }
 
